@@ -169,7 +169,10 @@ def check_C15(ex, sub=None):
                 out.append(V(P, "no-shrink", "trial %d was rejected/failed at lambda=%r but returned lambda=%r" % (t, 1.0 / tr.dt, tr.lamb), sub, ctx))
                 break
         if tr.lamb >= lamb_max:
-            if not last or ex.outcome != "deliberate:Inverse step size":
+            # no trial is computed once the value has reached its maximum: the solve stops there, with the
+            # dedicated error - or with a limit status when the step was cut short by the deadline or the
+            # budget ends at the same moment
+            if not last or not (ex.outcome == "deliberate:Inverse step size" or ex.outcome in ("status:TimeLimit", "status:IterationLimit")):
                 out.append(V(P, "lamb-max", "trial %d returned lambda=%r >= lamb_max=%r but the solve went on (%s)" % (t, tr.lamb, lamb_max, ex.outcome), sub, ctx))
                 break
         if t > 0 and not (1.0 / tr.dt) < lamb_max * (1 + 4 * EPS):
